@@ -392,7 +392,7 @@ impl FileDesc {
             independent_unit_positions: None,
             delimiter: Some(0),
             delimiter2: Some(0),
-            group: None,
+            group: self.object.config.groups.clone(),
             optel_propagator,
         }
     }
